@@ -6,7 +6,9 @@
 (*  kind "swap" / "copy" / "discard": Swap(l, r) / Copy(n) / Discard(n)    *)
 (*                called on t.xs (t.l = l for swap);                       *)
 (*  kind "square": both sides of a naturality square called on t.xs        *)
-(*                (t.res, t.res2), t.d / t.d2 the two composite diagrams.  *)
+(*                (t.res, t.res2), t.d / t.d2 the two composite diagrams;  *)
+(*                t.raw_eq = 1 iff python == holds between what the two    *)
+(*                calls return (before any normalisation to tuples).       *)
 (***************************************************************************)
 EXTENDS Cartesian, Json, IOUtils
 InputsV == {0}
@@ -20,7 +22,7 @@ J19(t) ==
   ELSE IF t.kind = "copy" THEN (IF t.res = CopyF(t.xs) THEN "ok" ELSE "copy-does-not-duplicate")
   ELSE IF t.kind = "discard" THEN (IF t.res = <<>> THEN "ok" ELSE "discard-does-not-delete")
   ELSE IF t.kind = "square" THEN
-       (IF t.res # t.res2 THEN "naturality-square-does-not-commute"
+       (IF t.res # t.res2 \/ t.raw_eq # 1 THEN "naturality-square-does-not-commute"
         ELSE IF t.res # EvalD(t.d, t.xs) THEN "result-differs-from-box-by-box-evaluation" ELSE "ok")
   ELSE "unknown-kind"
 Verdicts == LET T == ndJsonDeserialize(IOEnv.TRACE_FILE) IN [l \in 1..Len(T) |-> [v |-> <<J19(T[l])>>]]
